@@ -75,6 +75,9 @@ type meshSched struct {
 	open     bool // free mode: gates do not block
 	delayRng *rand.Rand
 	maxDelay int // microseconds, free mode
+	holdPoint string        // free mode: the first thread arriving at this gate is held for holdDur
+	holdDur   time.Duration
+	held      bool
 	finished map[int]error
 	done     map[int]bool
 	events   []meshEv
@@ -91,6 +94,12 @@ func (s *meshSched) gate(point string, self, a, b int) {
 	s.mu.Lock()
 	if s.open {
 		var d time.Duration
+		if s.holdPoint == point && !s.held {
+			s.held = true
+			s.mu.Unlock()
+			time.Sleep(s.holdDur)
+			return
+		}
 		if s.delayRng != nil && s.maxDelay > 0 && s.delayRng.Intn(3) > 0 {
 			d = time.Duration(s.delayRng.Intn(s.maxDelay)) * time.Microsecond
 		}
@@ -549,14 +558,15 @@ func c19Random(idx int, n, c int, rng *rand.Rand, record bool) (*Result, []meshE
 	return res, evs, nil
 }
 
-func c19Free(idx, n, c int, rng *rand.Rand) (*Result, error) {
-	res := &Result{Case: idx, Sample: map[string]int{"n": n, "c": c}}
+func c19Free(idx, n, c int, rng *rand.Rand, hold string, holdDur time.Duration) (*Result, error) {
+	res := &Result{Case: idx, Sample: map[string]interface{}{"n": n, "c": c, "hold": hold}}
 	r, err := newMeshRun(n, c, res)
 	if err != nil {
 		return nil, err
 	}
 	defer r.close()
 	r.s.open = true
+	r.s.holdPoint, r.s.holdDur = hold, holdDur
 	r.s.delayRng = rand.New(rand.NewSource(rng.Int63()))
 	r.s.maxDelay = []int{0, 200, 2000, 8000}[rng.Intn(4)]
 	if err := r.create(); err != nil {
@@ -585,7 +595,7 @@ func c19Free(idx, n, c int, rng *rand.Rand) (*Result, error) {
 		return nil, jerr
 	}
 	if !r.s.waitFor(20*time.Second, r.allDone) {
-		res.viol("stall", "free-running mesh formation does not terminate (n=%d c=%d, max gate delay %dus)", n, c, r.s.maxDelay)
+		res.viol("stall", "free-running mesh formation does not terminate (n=%d c=%d, max gate delay %dus, one thread held %v at %q)", n, c, r.s.maxDelay, holdDur, hold)
 		return res, nil
 	}
 	// accept goroutines may still be adding the last peers: the property is about the state at return,
@@ -673,6 +683,30 @@ func c19Main(args []string) error {
 			}
 		}
 		return nil
+	case "slow":
+		// one party is slow at one scheduling point: every timing of the parties must still form the mesh
+		out, err := newND(args[1])
+		if err != nil {
+			return err
+		}
+		defer out.close()
+		dur := 1500
+		if len(args) > 2 {
+			fmt.Sscan(args[2], &dur)
+		}
+		points := []string{"Hello", "Dial", "ReadHello"}
+		if thorough() {
+			points = []string{"LStart", "Hello", "RecvList", "Dial", "Wait", "SendList", "Accept", "ReadHello", "AFirst", "ASecond"}
+		}
+		for i, p := range points {
+			r, err := c19Free(i, 3+rng.Intn(2), 1+rng.Intn(2), rng, p, time.Duration(dur)*time.Millisecond)
+			if err != nil {
+				return err
+			}
+			r.Class = "slow:" + p
+			out.put(r)
+		}
+		return nil
 	case "free":
 		out, err := newND(args[1])
 		if err != nil {
@@ -687,7 +721,7 @@ func c19Main(args []string) error {
 		for i := 0; i < nruns && nviol < 3; i++ {
 			n := 2 + rng.Intn(5)
 			c := 1 + rng.Intn(4)
-			r, err := c19Free(i, n, c, rng)
+			r, err := c19Free(i, n, c, rng, "", 0)
 			if err != nil {
 				return err
 			}
